@@ -170,6 +170,24 @@ pub async fn run_socket_worker(
 
                 let connection_id = connection_handles.borrow_mut().insert(connection_handle);
 
+                // Verification hook: report which (socket worker, slot map key) a new
+                // connection got, identified by the client's TCP port
+                #[cfg(aquatic_verif)]
+                {
+                    use slotmap::Key;
+
+                    let ffi = connection_id.data().as_ffi();
+                    let port = stream.peer_addr().map(|a| a.port()).unwrap_or(0) as u64;
+
+                    aquatic_common::verif::probe(
+                        "ws_conn_open",
+                        (port << 40)
+                            | ((out_message_consumer_id.0 as u64) << 32)
+                            | (((ffi >> 32) & 0xfff) << 20)
+                            | (ffi & 0xf_ffff),
+                    );
+                }
+
                 spawn_local_into(
                     enclose!((
                         config,
